@@ -221,6 +221,13 @@ def _check(case):
     rtol = 1e-8 if method == "first_order" else 1e-6
     pT = sd.Paths(PT, spec, start, 0, N - 1)
     pP = sd.Paths(PP, spec, start, 0, N - 1)
+    if method == "stacked_time" and log:
+        # collapsed pseudo-solutions of multiplicative equations (see C06): counted, not compared
+        xs_, _ = lm.steady(spec)
+        for j, nm_ in enumerate(spec["names"]):
+            a_ = pP.arr(nm_)
+            if not np.all(np.isfinite(a_)) or np.any(a_ <= 0) or float(np.max(np.abs(np.log(a_) - (0.0 if dev else xs_[j])))) > 12.0:
+                return {"labels": ["collapsed_pseudo_solution"], "nontrivial": False}
     scale = 1.0 + max(float(np.max(np.abs(np.log(pT.arr(nm)) if log else pT.arr(nm)))) for nm in spec["names"])
     # 1. exogenized points are hit
     for (var, tt, _, _, _) in pairs:
